@@ -1109,6 +1109,12 @@ int safec_vsnprintf_s(out_fct_type out, const char *funcname, char *buffer,
                 if (*format) {
                     unsigned off = format - startformat;
                     char *s = (char *)malloc(off + 1);
+                    if (!s) {
+                        char msg[80];
+                        snprintf(msg, sizeof msg, "%s: malloc failed", funcname);
+                        invoke_safe_str_constraint_handler(msg, buffer, 1);
+                        return -1;
+                    }
                     memcpy(s, startformat, off);
                     s[off] = '\0';
                     idx = safec_ftoa_long(out, funcname, buffer, idx, bufsize,
@@ -1142,6 +1148,12 @@ int safec_vsnprintf_s(out_fct_type out, const char *funcname, char *buffer,
                 if (*format) {
                     unsigned off = format - startformat;
                     char *s = (char *)malloc(off + 1);
+                    if (!s) {
+                        char msg[80];
+                        snprintf(msg, sizeof msg, "%s: malloc failed", funcname);
+                        invoke_safe_str_constraint_handler(msg, buffer, 1);
+                        return -1;
+                    }
                     memcpy(s, startformat, off);
                     s[off] = '\0';
                     idx = safec_etoa_long(out, funcname, buffer, idx, bufsize,
@@ -1170,6 +1182,12 @@ int safec_vsnprintf_s(out_fct_type out, const char *funcname, char *buffer,
                 if (*format) {
                     unsigned off = format - startformat;
                     char *s = (char *)malloc(off + 1);
+                    if (!s) {
+                        char msg[80];
+                        snprintf(msg, sizeof msg, "%s: malloc failed", funcname);
+                        invoke_safe_str_constraint_handler(msg, buffer, 1);
+                        return -1;
+                    }
                     memcpy(s, startformat, off);
                     s[off] = '\0';
                     idx = safec_atoa_long(out, funcname, buffer, idx, bufsize,
@@ -1187,6 +1205,12 @@ int safec_vsnprintf_s(out_fct_type out, const char *funcname, char *buffer,
                 if (*format) {
                     unsigned off = format - startformat;
                     char *s = (char *)malloc(off + 1);
+                    if (!s) {
+                        char msg[80];
+                        snprintf(msg, sizeof msg, "%s: malloc failed", funcname);
+                        invoke_safe_str_constraint_handler(msg, buffer, 1);
+                        return -1;
+                    }
                     memcpy(s, startformat, off);
                     s[off] = '\0';
                     idx = safec_atoa(out, funcname, buffer, idx, bufsize,
